@@ -36,10 +36,21 @@ def lb_ops(max_ops=100, with_time=False):
       (1, st.tuples(st.just('up'), st.integers(0, 8)).map(list)),
       (1, st.tuples(st.just('join'), st.integers(0, 8)).map(list)),
       (1, st.tuples(st.just('leave'), st.integers(0, 8)).map(list)),
+      (1, st.just(['leave_all'])),
   ]
   if with_time:
     pairs.append((1, st.tuples(st.just('advance'), st.sampled_from([1, 10, 100, 1000, 5000])).map(list)))
-  return sized_list(weighted(*pairs), 0, max_ops)
+  def thin(ops):
+    # "everybody leaves" is drastic: at most one per history, and only in a third of the histories
+    out, seen = [], False
+    for op in ops:
+      if op[0] == 'leave_all':
+        if seen or len(ops) % 3:
+          continue
+        seen = True
+      out.append(op)
+    return out
+  return sized_list(weighted(*pairs), 0, max_ops).map(thin)
 
 
 
